@@ -567,6 +567,22 @@ func c17R3(c *Ctx, g *gossipAnchors, fn *ssa.Function, ws []gWrite) {
 			}
 		})
 	})
+	// or: the snapshot is produced by a helper that returns every entry of the node, sorted by version
+	helperSorted := false
+	allInstrs(fn, func(i ssa.Instruction) {
+		cl, ok := i.(*ssa.Call)
+		if !ok || !dominatesInstr(cl, reset.instr) {
+			return
+		}
+		cal := cl.Call.StaticCallee()
+		if cal == nil || !inModule(cal) || len(cl.Call.Args) == 0 || !g.isLocalState(cl.Call.Args[0]) {
+			return
+		}
+		if g.isSortedSnapshotFn(cal) {
+			helperSorted = true
+			snapOK = true
+		}
+	})
 	c.check(snapOK, "C17.R3", fnName(fn)+"/snapshot-complete", reset.instr.Pos(),
 		"every entry is copied to the snapshot before the map is reset",
 		"the snapshot taken before resetting the entries does not unconditionally include every entry")
@@ -594,7 +610,7 @@ func c17R3(c *Ctx, g *gossipAnchors, fn *ssa.Function, ws []gWrite) {
 						if ia, ok := b.(*ssa.IndexAddr); ok {
 							if bo, ok := ia.Index.(*ssa.BinOp); ok && bo.Op == token.SUB {
 								if one, ok := constInt(bo.Y); ok && one == 1 {
-									if sortedBefore(fn, u, g) {
+									if sortedBefore(fn, u, g) || helperSorted {
 										markOK = true
 									} else {
 										why = "the snapshot is not sorted by Version before its last element is taken as the compaction version"
@@ -709,4 +725,56 @@ func indexedByParam(v ssa.Value, fn *ssa.Function, k int) bool {
 	}
 	pv, ok := strip(ia.Index).(*ssa.Parameter)
 	return ok && len(fn.Params) > k && pv == fn.Params[k]
+}
+
+// isSortedSnapshotFn: f(receiver *nodeState) returns a slice holding every
+// entry of the receiver (unconditional append in a range over its Entries),
+// sorted ascending by Version on every path to return.
+func (g *gossipAnchors) isSortedSnapshotFn(f *ssa.Function) bool {
+	if len(f.Params) == 0 || len(f.Blocks) == 0 {
+		return false
+	}
+	fs := computeFacts(f)
+	complete := false
+	allInstrs(f, func(i ssa.Instruction) {
+		rg, ok := i.(*ssa.Range)
+		if !ok {
+			return
+		}
+		base, ok := loadedField(rg.X, g.entriesF)
+		if !ok || strip(base) != ssa.Value(f.Params[0]) {
+			return
+		}
+		allInstrs(f, func(j ssa.Instruction) {
+			cl, ok := j.(*ssa.Call)
+			if !ok {
+				return
+			}
+			if b, ok := cl.Call.Value.(*ssa.Builtin); !ok || b.Name() != "append" {
+				return
+			}
+			extra, fromThis := 0, false
+			for _, fc := range fs.At(cl.Block()) {
+				if ex, ok := fc.V.(*ssa.Extract); ok {
+					if nx, ok := ex.Tuple.(*ssa.Next); ok && nx.Iter == ssa.Value(rg) && fc.T {
+						fromThis = true
+						continue
+					}
+				}
+				extra++
+			}
+			if fromThis && extra == 0 {
+				complete = true
+			}
+		})
+	})
+	if !complete {
+		return false
+	}
+	for _, r := range returnsOf(f) {
+		if !sortedBefore(f, r, g) {
+			return false
+		}
+	}
+	return true
 }
